@@ -15,7 +15,7 @@ C = {
  "C02": ("model_checking", ["E1", "E3"], "controlled-scheduler exploration + bounded-exhaustive histories (incl. positional low-level access on the wrapper); every reported (index, element) pair compared with the source", "Every (index, value) pair returned in every explored interleaving / sequential history is compared with the source position (values differ from indices; reference kinds also by address).", "5/C02"),
  "C03": ("model_checking", ["E3", "E1"], "bounded-exhaustive operation histories vs. reference cursor + controlled-scheduler exploration; per-chunk contract oracle", "All histories up to depth 4/5 over chunk sizes {1,2,3,len,len+1} x consumption {0,1,all} x held / buffered chunks, and all interleavings of chunk-mixing plans: non-empty, <= n, exact ExactSizeIterator::len, consecutive positions, short only at the end.", "5/C03"),
  "C04": ("model_checking", ["E1", "E3"], "controlled-scheduler exploration with online prefix / per-thread / real-time-order oracles + exhaustive sequential histories vs. reference cursor", "Gap-free prefix at every quiescent point, per-thread monotonicity, real-time order (snapshot of completed calls taken at the first atomic operation of each call) on every interleaving; every sequential history equals the reference cursor.", "3.1 oracle inputs, 5/C04"),
- "C05": ("model_checking", ["E3", "E1"], "bounded-exhaustive histories continuing past the end (incl. a non-fused wrapped iterator) + interleavings of drain-then-pull plans", "Once an end report completed, no later-starting pull delivers and no length is positive: all histories up to depth 5/6 and all interleavings of the listed plans.", "5/C05"),
+ "C05": ("model_checking", ["E3", "E1"], "bounded-exhaustive histories continuing past the end (incl. a non-fused wrapped iterator) + interleavings of drain-then-pull plans (incl. overshooting chunks and skip_to_end on another thread)", "Once an end report completed, no later-starting pull delivers, none hangs and no length is positive: all histories up to depth 5/6 and all interleavings of the listed plans.", "5/C05, 11.10"),
  "C06": ("model_checking", ["E3", "E1"], "skip_to_end inserted at every position of every bounded history + all interleavings of skipping and pulling plans", "For every completed skip, later-starting pulls report the end and has_more is No; no duplicate / disorder / wrong index in any execution containing skips.", "5/C06"),
  "C07": ("model_checking", ["E1"], "controlled-scheduler exploration with a vector-clock happens-before monitor computed from the memory orderings in the source; harness-owned probe iterator reports its accesses", "All interleavings of 2 (complete) and 3 (bounded) threads mixing singles, chunks, buffered pulls and skip on iterators wrapping a probe: no two next() executions unordered by happens-before, no overlap, no race on storage slots of consumed collections.", "3.1 happens-before monitor, 5/C07"),
  "C08": ("model_checking", ["E3", "E1"], "bounded-exhaustive histories with a destructor ledger per element + concurrent stop-early systems followed by drop / into_seq_iter", "Every element of a consumed vec / array / owning iterator is destroyed exactly once and handed out at most once over all histories (depth 5/6, every terminal) and all interleavings of the listed systems.", "5/C08"),
@@ -26,9 +26,9 @@ C = {
  "C13": ("model_checking", ["E3", "E1"], "lock-step pair: every bounded history applied to the adaptor and to an identical underlying reference-yielding iterator + the concurrent oracles on adaptor kinds", "Observation streams of cloned()/copied() iterators equal those of the underlying iterator step by step; clones are clones, source untouched; concurrent exactly-once/order oracles on adaptor kinds.", "5/C13"),
  "C14": ("exploration", ["E4", "E3"], "exhaustive family of probe programs judged by the compiler against a reference typing rule + bounded-exhaustive safe low-level call sequences with an ownership ledger", "The enumeration of programs / call sequences is exhaustive over the stated family; the verdict on one program is rustc's (not a model checker's), which is why the level is 'exploration'. Two genuine defects are recorded as known findings (F11, F12).", "3.4, 5/C14"),
  "C15": ("model_checking", ["E3", "E1"], "bounded-exhaustive histories on consuming kinds with a counting global allocator (element sizes 8 and 24 bytes, elements owning a heap block) + the same ledger after every interleaving of concurrent stop-early systems", "After every history and terminal, and after every explored interleaving followed by drop / into_seq_iter, no heap block that belonged to the consumed collection or was allocated by the iterator machinery is live.", "5/C15, 11.2"),
- "C16": ("exploration", ["E3"], "exhaustive grid of boundary inputs (range bounds^2, chunk sizes up to usize::MAX, zero sizes) x short follow-up histories, in a build with and one without overflow checks, against a mathematical model", "Every cell of the stated grid followed by every history of depth <= 3/4: exact in-range values and indices, no empty chunk, no panic except the documented ones (which must occur).", "5/C16"),
+ "C16": ("exploration", ["E3", "E1"], "exhaustive grid of boundary inputs (range bounds^2, chunk sizes up to usize::MAX, zero sizes) x short follow-up histories, in a build with and one without overflow checks, against a mathematical model + all interleavings of zero-sized and one extreme chunk pull racing with ordinary pulls", "Every cell of the stated grid followed by every history of depth <= 3/4: exact in-range values and indices, no empty chunk, no panic except the documented ones (which must occur). Concurrent leg: zero-sized / usize::MAX/2 chunk pulls racing with single and chunk pulls on every kind under all interleavings keep exactly-once delivery (cumulative requests stay below usize::MAX, see DESIGN.md 11.10 residual).", "5/C16, 11.10"),
  "C17": ("exploration", ["E3", "E1"], "differential: the complete transcripts of an exhaustive history set produced by two differently compiled harness binaries (debug assertions + overflow checks on / off) must be identical, aborts are caught per history; plus the outcome sets of exhaustively explored 2-thread systems (length queries racing with pulls) compared between two differently compiled scheduler binaries", "Transcript hashes per work unit compared between profiles; any abort (std precondition check) or difference is localised to the first differing history. Concurrent leg: per configuration identical outcome sets and violation classes in both profiles.", "5/C17, 11.2"),
- "C18": ("fault_enumeration", ["E1"], "fault injection at every position k (k-th next() of the wrapped iterator - with a scheduling point inside the panicking call -, k-th clone, k-th closure call) x all interleavings of the other threads, with hang predicate, drop ledger and abort attribution, in an optimized build and in one with debug assertions", "For every crash point and every interleaving: no hang, no duplicate, exact-once destruction.", "5/C18"),
+ "C18": ("fault_enumeration", ["E1"], "fault injection at every position k (k-th next() of the wrapped iterator - with a scheduling point inside the panicking call -, k-th clone, k-th closure call) x all interleavings of the other threads (scheduling points stay active while the panic unwinds, so destructors of unwind guards interleave with the other threads), with hang predicate, drop ledger and abort attribution, in an optimized build and in one with debug assertions", "For every crash point and every interleaving: no hang, no duplicate, exact-once destruction.", "5/C18, 11.10"),
  "C19": ("model_checking", ["E3"], "bounded-exhaustive histories over up to three live iterators (fresh and cloned) on one collection vs. one reference cursor per iterator, with address checks", "Every delivered reference points at the collection's element, iterators and clones progress independently (all are queried after every step), the collection is intact afterwards.", "5/C19"),
 }
 NOTE = {
